@@ -289,6 +289,20 @@ class SimSocket(socket.socket):
             return raw
         return io.BufferedReader(raw, buffer_size=buffering if (buffering and buffering > 0) else io.DEFAULT_BUFFER_SIZE)
 
+    # the placeholder descriptor is not connected; callers always pass connected sockets, so answer like one
+    def getpeername(self):
+        return "/simulated/peer"
+
+    def getsockname(self):
+        return "/simulated/local"
+
+    def getsockopt(self, level, optname, buflen=None):
+        if level == socket.SOL_SOCKET and optname == socket.SO_ERROR:
+            return 0
+        if level == socket.SOL_SOCKET and optname == socket.SO_TYPE:
+            return socket.SOCK_STREAM
+        return super().getsockopt(level, optname) if buflen is None else super().getsockopt(level, optname, buflen)
+
     def setblocking(self, flag):
         self._sim_timeout = None if flag else 0.0
 
